@@ -333,21 +333,31 @@ def run(ctx):
         "translator translate/gen_reduce.py (fail-closed python-ast -> Gallina for the collection loop and the sumup "
         "statement of _getBH_level2; index arithmetic translated as written); Props/C05.v proves the translated "
         "loop equal to the model's loop on every run",
+        "translator translate/gen_flat.py (fail-closed interpretation, per kind of object, of format_obj_input / "
+        "filter_objects / format_src_inputs of utility.py); Props/C05.v proves the translated functions equal to the "
+        "hand model of Model/Level2Flat.v; the class hierarchy (a Collection is neither BaseSource nor Sensor nor "
+        "list) is built into the translator and exercised by the tree correspondence",
         "hand models coq/Model/Level2Model.v (data flow incl. the literal slice-sum/delete loop) and "
         "coq/Model/Level2Flat.v (format_obj_input / filter_objects / format_src_inputs), tied by the exact "
         "correspondence with stub sources; getBH = spec is proved in Proofs/Level2A-E (shared with C04/C06)",
         "linearity is proved over R for the formula models of coq/Model/CoreModel.v (dipole, sphere, polyline "
         "segment, circle on the modelled branches; tied to the code by the C01 correspondence), with Coq's total "
-        "division; all other classes (cuboid, cylinder, cylinder segment, triangle, tetrahedron, mesh, general "
-        "circle branch) are covered by the numerical search only",
+        "division; for the cuboid, core and wrapper: the contribution table Gen/GenCuboid.cuboid_contrib is "
+        "re-translated on every run by translate/gen_cuboid.py (which checks the form [-]pol_k*ff*qsigns[k][j] "
+        "of every contribution) and the core theorem holds for every table / sign function / term function; "
+        "the wrapper theorems use coq/Model/WrapModel.v (tied to the code by the C02 correspondence)",
+        "wrapper theorems for triangle, tetrahedron, triangular mesh and cylinder segment are CONDITIONAL on "
+        "the linearity of the opaque core (triangle_Bfield, magnet_cylinder_segment_Hfield); Cylinder is proved "
+        "for purely axial polarization only; these cores and the general circle branch are search-only",
         "np.sum / np.delete on axis 0 are modelled as list functions (sum_blocks, delete_range), not verified",
     ]
-    ok = ctx.regen(["GenReduce"])
+    ok = ctx.regen(["GenReduce", "GenFlat", "GenCuboid"])
     built = ctx.build_props() and ok
     if ctx.tier == "thorough" and built:
         ctx.coqchk("MV.Props.C05")
     ctx.partial += ["C05_linear_in_excitation_partial_dipole", "C05_linear_in_excitation_partial_sphere",
-                    "C05_linear_in_excitation_partial_polyline", "C05_linear_in_excitation_partial_circle"]
+                    "C05_linear_in_excitation_partial_polyline", "C05_linear_in_excitation_partial_circle",
+                    "C05_wrapper_linear_cylinder_axial_partial"]
     cases = run_guarded(ctx, lambda: correspondence(ctx, built), "C05 correspondence") or []
     big = bool(ctx.broken)
     sub = cases if (big or ctx.tier == "thorough") else cases[:40] + cases[84:84 + 80]
